@@ -18,7 +18,7 @@ fn space_for(tier: Tier) -> (Space, usize) {
     let mut s = Space::new();
     match tier {
         Tier::Quick => {
-            s.ast("AN", 4, 64);
+            s.ast("AN", 5, 64);
             (s, 4)
         }
         Tier::Thorough => {
